@@ -50,6 +50,16 @@ var (
 	repoRoot  = "/repo"
 )
 
+// evidenceDir is where evidence and replay files are written: <verif root>/evidence, unless VERIF_EVIDENCE_DIR
+// redirects it (used when the checks are run against a scratch copy of the repository, so that the committed
+// evidence - which describes /repo itself - is not overwritten).
+func evidenceDir() string {
+	if v := os.Getenv("VERIF_EVIDENCE_DIR"); v != "" {
+		return v
+	}
+	return filepath.Join(verifRoot, "evidence")
+}
+
 func main() {
 	if v := os.Getenv("VERIF_ROOT"); v != "" {
 		verifRoot = v
@@ -596,6 +606,6 @@ func writeEvidence(prop, tier string, seed int, outcomes []*HarnessOutcome, cfg 
 		"violations":  violations,
 	}
 	data, _ := json.MarshalIndent(ev, "", " ")
-	os.MkdirAll(filepath.Join(verifRoot, "evidence"), 0o755)
-	os.WriteFile(filepath.Join(verifRoot, "evidence", prop+".json"), data, 0o644)
+	os.MkdirAll(evidenceDir(), 0o755)
+	os.WriteFile(filepath.Join(evidenceDir(), prop+".json"), data, 0o644)
 }
